@@ -70,7 +70,7 @@ def workdir():
 
 # ------------------------------------------------------------------------------------------------ C16
 C16_DOCS = [
-    [{"id": 1, "name": "a", "tags": ["x"], "p": {"a": 1, "b": 2, "c": 3, "d": 4}, "q": {"a": 1, "x": 2, "y": 3, "z": 4}}, {"id": 2, "name": "b", "extra": None}],
+    [{"id": 1, "name": "a", "tags": ["x"], "p": {"a": 1, "b": 2, "c": 3, "d": 4}, "q": {"a": 1, "x": 2, "y": 3, "z": 4}, "flag": "true", "num": "12"}, {"id": 2, "name": "b", "extra": None, "flag": "false", "num": "2.5"}],
     {"id": 3, "name": "c", "nested": {"k": 1.5},
      "u": {"s1": 1, "s2": 1, "s3": 1, "s4": 1, "s5": 1, "s6": 1, "s7": 1, "a1": 1},
      "v": {"s1": 1, "s2": 1, "s3": 1, "s4": 1, "s5": 1, "s6": 1, "s7": 1, "b1": 1, "b2": 1}},
@@ -82,10 +82,18 @@ C16_DOCS = [
 def library_text(samples, fw, layout, opts):
     merge = opts.get("merge")
     reg, gen, roots = infer(samples, merge=merge, dict_keys_fields=opts.get("dkf"), dict_keys_regex=[f"^{r}$" for r in opts.get("dkr", [])] or None,
-                            str_registry=__import__("json_to_models.dynamic_typing", fromlist=["registry"]).registry if opts.get("default_registry") else None,
+                            str_registry=_library_registry(opts) if opts.get("default_registry") else None,
                             datetime=opts.get("datetime", False))
     kw = {"post_init_converters": opts.get("converters", False), "convert_unicode": True, "max_literals": opts.get("max_literals", 10)}
     return render(reg, fw, layout, preamble=opts.get("preamble"), **kw)
+
+
+def _library_registry(opts):
+    """the default registry with the named pseudo-types removed (what --disable-str-serializable-types asks for)"""
+    from json_to_models.dynamic_typing import registry as default_registry
+    for nm in opts.get("disable", ()):
+        default_registry.remove_by_name(nm)
+    return default_registry
 
 
 def oracle_c16(case):
@@ -122,6 +130,12 @@ def oracle_c16(case):
             open(yp, "w").write("- enabled: yes\n  mode: off\n  n: 010\n  name: a\n- enabled: no\n  mode: on\n  n: 7\n  name: b\n")
             argv += ["-m", "Item", yp, "-i", "yaml"]
             samples = {"Item": docs}
+        elif split == "same_file_two_lookups":
+            doc = {"current": {"id": 1, "name": "n", "price": 1}, "archive": {"items": [{"id": 2, "name": "m", "price": 2.5, "old": True}, {"id": 3, "name": "k"}]}}
+            fp = os.path.join(d, "doc.json")
+            json.dump(doc, open(fp, "w"))
+            argv += ["-m", "Item", "current", fp, "-m", "Item", "archive.items", fp]
+            samples = {"Item": [doc["current"]] + doc["archive"]["items"]}
         elif split == "bracket_name":
             # a literal file name with glob meta-characters in it; a decoy that the character class would match
             real = os.path.join(d, "export[1].json")
@@ -149,8 +163,17 @@ def oracle_c16(case):
             pol = []
             for w in words:
                 kind, _, arg = w.partition("_")
-                pol.append(ModelFieldsEquals() if kind == "exact" else (ModelFieldsPercentMatch(float(arg) / 100) if kind == "percent" else ModelFieldsNumberMatch(int(arg))))
+                if kind == "exact":
+                    pol.append(ModelFieldsEquals())
+                elif kind == "percent":
+                    pol.append(ModelFieldsPercentMatch(float(arg) / 100) if arg else ModelFieldsPercentMatch())
+                else:
+                    pol.append(ModelFieldsNumberMatch(int(arg)) if arg else ModelFieldsNumberMatch())
             opts["merge"] = pol
+        elif optname.startswith("disable:"):
+            names = optname[8:].split()
+            argv += ["--disable-str-serializable-types"] + names
+            opts["disable"] = names
         elif optname == "max0":
             argv += ["--max-strings-literals", "0"]
             opts["max_literals"] = 0
@@ -176,6 +199,8 @@ def oracle_c16(case):
             lib = library_text(samples, fw, layout, opts)
         except Exception as e:
             return f"library pipeline failed where the CLI succeeded: {type(e).__name__}: {e}"
+        finally:
+            reset_default_registry()
         if strip_header(out) != lib:
             a, b = strip_header(out), lib
             i = next((k for k, (x, y) in enumerate(zip(a, b)) if x != y), min(len(a), len(b)))
@@ -195,13 +220,13 @@ def oracle_c16(case):
 
 @bounded("C16", "cli_equals_library_pipeline")
 def c16(tier, seed):
-    splits = ["one_model_many_files", "two_models", "m_and_l", "pattern", "bracket_name", "empty_pages", "yaml_plain_scalars"]
+    splits = ["one_model_many_files", "two_models", "m_and_l", "pattern", "bracket_name", "empty_pages", "yaml_plain_scalars", "same_file_two_lookups"]
     opts = ["none", "exact", "max0", "max2", "dkf", "converters", "preamble", "merge:percent_1", "merge:percent_0.5", "merge:percent_15", "merge:percent_100 number_1", "merge:percent_70", "merge:percent_71", "merge:percent_69",
-            "merge:number_2", "merge:number_1 exact"]
+            "merge:number_2", "merge:number_1 exact", "merge:number_4 percent", "merge:percent_95 number", "disable:BooleanString", "disable:int FloatString"]
     fws = ["base", "pydantic", "attrs", "dataclasses"] if tier == "thorough" else ["pydantic", "dataclasses"]
     cases = [(s, fw, lay, o) for s in splits for fw in fws for lay in ("flat", "nested") for o in opts]
     r = run_cases(cases, oracle_c16, "c16")
-    r["bound"] = f"7 ways of splitting 4 documents over files / lookups / -m / -l / a one-file pattern / literal names containing [ ] / paginated files with an empty page / a YAML file with 1.1-only plain scalars x {len(fws)} frameworks x 2 layouts x 16 option sets (incl. merge thresholds around the overlaps present); stdout and -o both compared with the library pipeline"
+    r["bound"] = f"8 ways of splitting 4 documents over files / lookups / -m / -l / a one-file pattern / literal names containing [ ] / paginated files with an empty page / a YAML file with 1.1-only plain scalars / one file read through two lookups x {len(fws)} frameworks x 2 layouts x 20 option sets (incl. merge thresholds around the overlaps present); stdout and -o both compared with the library pipeline"
     r["function"] = "Cli.parse_args + Cli.run (in-process)"
     return r
 
@@ -267,6 +292,41 @@ def c18_reuse(tier, seed):
     r = run_cases(REUSE_CASES[:3], oracle_cli_reuse, "cli_reuse")
     r["bound"] = "3 pairs of command lines toggling --strings-converters on one Cli object"
     r["function"] = "Cli.set_args (generator kwargs)"
+    return r
+
+
+def oracle_c05_cli_policy(case):
+    """the comparators a command line configures are the ones its --merge words name, each with its own argument or its own default"""
+    words, = case
+    from json_to_models.cli import Cli
+    from json_to_models.registry import ModelFieldsEquals as E, ModelFieldsNumberMatch as N, ModelFieldsPercentMatch as P
+    with workdir() as d:
+        p = os.path.join(d, "g.json")
+        json.dump([{"id": 1}], open(p, "w"))
+        reset_default_registry()
+        try:
+            cli = Cli()
+            cli.parse_args(["-m", "Item", p, "--merge"] + list(words))
+        finally:
+            reset_default_registry()
+        got = [(type(c).__name__, getattr(c, "percent_fields", None), getattr(c, "number_fields", None)) for c in cli.merge_policy]
+        want = []
+        for w in words:
+            kind, _, arg = w.partition("_")
+            c = E() if kind == "exact" else ((P(float(arg) / 100) if arg else P()) if kind == "percent" else (N(int(arg)) if arg else N()))
+            want.append((type(c).__name__, getattr(c, "percent_fields", None), getattr(c, "number_fields", None)))
+        if got != want:
+            return f"--merge {' '.join(words)} configured {got}, the words name {want}"
+    return None
+
+
+@bounded("C05", "merge_policy_words_to_comparators")
+def c05_cli_policy(tier, seed):
+    cases = [(w,) for w in [("percent",), ("number",), ("exact",), ("percent_50",), ("number_4", "percent"), ("percent_95", "number"), ("number_3", "exact", "percent"),
+                            ("percent", "number_10"), ("exact", "number"), ("percent_1", "percent")]]
+    r = run_cases(cases, oracle_c05_cli_policy, "c05_cli_policy")
+    r["bound"] = "10 --merge word lists (bare words after words with an argument, repeated kinds) compared with the comparators the words name"
+    r["function"] = "Cli.set_args (merge policy construction)"
     return r
 
 
@@ -398,7 +458,7 @@ def c18_cli(tier, seed):
 # ------------------------------------------------------------------------------------------------ C17
 FAULTS = ["missing_file", "bad_json", "wrong_lookup", "scalar_lookup", "falsy_scalar_lookup", "non_object_sample", "bad_merge", "bad_framework_combo",
           "generator_exception", "bad_yaml", "bad_ini", "missing_ini", "missing_yaml", "null_sample", "zero_sample", "false_sample", "empty_string_sample",
-          "empty_list_sample", "string_sample", "looked_up_list_with_null", "missing_bracket_file", "missing_in_bracket_dir"]
+          "empty_list_sample", "string_sample", "looked_up_list_with_null", "missing_bracket_file", "missing_in_bracket_dir", "kwargs_item_without_equals", "kwargs_item_without_equals_attrs"]
 
 
 def oracle_c17(case):
@@ -444,6 +504,9 @@ def oracle_c17(case):
                 good.append(gp)
             bad = os.path.join(d, "nope." + ext)
             fmt = ["-i", ext]
+        elif fault in ("kwargs_item_without_equals", "kwargs_item_without_equals_attrs"):
+            json.dump([{"id": 9}], open(bad, "w"))
+            extra = (["-f", "attrs"] if fault.endswith("attrs") else []) + ["--code-generator-kwargs", "meta" if fault.endswith("attrs") else "convert_unicode"]
         elif fault == "missing_bracket_file":
             bad = os.path.join(d, "page[2].json")
         elif fault == "missing_in_bracket_dir":
@@ -604,7 +667,7 @@ def c19(tier, seed):
     return r
 
 
-ORACLES = {"cli_reuse": lambda c: oracle_cli_reuse((tuple(c[0]), tuple(c[1]))), "c13_cli": lambda c: oracle_c13_cli((tuple(c[0]),)), "c18_cli": lambda c: oracle_c18_cli(tuple(c)), "c10_cli": lambda c: oracle_c10_cli(tuple(c)), "c09_cli": lambda c: oracle_c09_cli(tuple(c)), "c16": lambda c: oracle_c16(tuple(c)), "c17": lambda c: oracle_c17(tuple(c)), "c17_success": lambda c: oracle_c17_success(tuple(c)),
+ORACLES = {"c05_cli_policy": lambda c: oracle_c05_cli_policy((tuple(c[0]),)), "cli_reuse": lambda c: oracle_cli_reuse((tuple(c[0]), tuple(c[1]))), "c13_cli": lambda c: oracle_c13_cli((tuple(c[0]),)), "c18_cli": lambda c: oracle_c18_cli(tuple(c)), "c10_cli": lambda c: oracle_c10_cli(tuple(c)), "c09_cli": lambda c: oracle_c09_cli(tuple(c)), "c16": lambda c: oracle_c16(tuple(c)), "c17": lambda c: oracle_c17(tuple(c)), "c17_success": lambda c: oracle_c17_success(tuple(c)),
            "c19": lambda c: oracle_c19((tuple(c[0]), c[1], c[2]))}
 
 
